@@ -71,8 +71,47 @@ def rows(path):
         return len(list(csv.reader(f))) - 1
 
 
+def horizon_case(case):
+    """a trivial fed system, no failures: every (step, unit, number of steps) must run to completion with exactly that many increments"""
+    from relsad.simulation import Simulation
+    from relsad.Time import Time, TimeStamp, TimeUnit
+    viols = []
+    u = case["unit"]; n = case["n"]
+    dt_s = F(case["dt_s"])                       # step in seconds (exact)
+    total_s = dt_s * n
+    spec = {"ctrl": {"type": "manual", "T": "1"}, "feeders": [{"parent": [-1, 0], "sw": [3, 3], "cust": [1, 1], "load": ["1/20", "1/20"], "cost": [1, 1]}],
+            "tie": None, "ties": [], "mg": None, "rep": "2", "exact": False, "nprof": case["nprof"]}
+    ps = net.build(spec)
+    sim = Simulation(ps, random_seed=0)
+    sec = int(total_s)
+    stop = TimeStamp(day=sec // 86400, hour=(sec % 86400) // 3600, minute=(sec % 3600) // 60, second=sec % 60)
+    step = Time(float(dt_s / c17.FACT[u]), c17.U(u))
+    count = [0]
+    def cb(ps, prev_time, curr_time):
+        count[0] += 1
+    for mode in case["entries"]:
+        count[0] = 0
+        try:
+            with contextlib.redirect_stdout(io.StringIO()):
+                if mode == "seq":
+                    sim.run_sequential(start_time=TimeStamp(), stop_time=stop, time_step=step, time_unit=c17.U(u), callback=cb, save_dir=acct.tmpdir("c09_h"), save_flag=False)
+                else:
+                    sim.run_monte_carlo(iterations=1, start_time=TimeStamp(), stop_time=stop, time_step=step, time_unit=c17.U(u), callback=cb,
+                                        save_dir=acct.tmpdir("c09_h"), save_iterations=[], debug=True)
+        except Exception as e:
+            tb = traceback.extract_tb(e.__traceback__)
+            where = next((f"{os.path.relpath(f.filename, REPO)}:{f.lineno}" for f in reversed(tb) if f.filename.startswith(REPO)), "?")
+            viols.append((f"raise:{type(e).__name__}", f"{mode}: step {float(dt_s)} s written in {c17.U(u).name} x {n} steps raised {type(e).__name__}: {str(e)[:100]} at {where}"))
+            continue
+        if count[0] != n:
+            viols.append(("horizon.count", f"{mode}: step {float(dt_s)} s written in {c17.U(u).name}, horizon of {n} steps: {count[0]} increments simulated"))
+    return dict(ops=[], impl=[], viols=viols[:3], nontrivial=("horizon", u, str(dt_s), min(n, 40)), tag="horizon")
+
+
 def handler(case):
     from relsad.Time import Time, TimeStamp, TimeUnit
+    if case["kind"] == "horizon":
+        return horizon_case(case)
     viols = []
     st = case["start"]; u = case["unit"]
     start = TimeStamp(day=st[0], hour=st[1], minute=st[2])
@@ -130,8 +169,13 @@ def handler(case):
     return dict(ops=[], impl=[], viols=viols[:3], nontrivial=nt, tag=f"{spec['ctrl']['type']}:unit={case['unit']}")
 
 
-def gen(rng, n):
+def gen(rng, n, nh=0):
     cases = []
+    for _ in range(nh):
+        # steps that are not binary fractions of the reporting unit: 1 h in days / weeks, 20 / 10 / 6 min in hours, 1 s in hours ...
+        u, dt_s = rng.choice([(4, 3600), (4, 1800), (5, 3600), (3, 1200), (3, 600), (3, 360), (3, 60), (2, 20), (2, 1), (3, 1), (4, 7200), (3, 3600), (2, 60)])
+        k = rng.randint(1, 60)
+        cases.append({"kind": "horizon", "unit": u, "dt_s": str(dt_s), "n": k, "nprof": rng.choice([k, 24, 2 * k]), "entries": rng.sample(["seq", "mc"], rng.choice([1, 2]))})
     for _ in range(n):
         spec = gen_spec(rng)
         u = rng.choice([3, 3, 2, 1, 4])
@@ -146,19 +190,20 @@ def gen(rng, n):
 
 def run(res):
     rng = random.Random(res.seed * 10061 + 97)
-    n = 14 if res.tier == "quick" else 400
+    n, nh = (14, 120) if res.tier == "quick" else (400, 4000)
     res.rule = ("valid configurations: 1-2 feeders (laterals, 0-2 disconnectors per line, ties), microgrids in all modes with batteries, production, EV parks whose 24-row "
                 "tables are ascending / reversed / shuffled and include tiny parks, manual or MainController control with or without an ICT network (some devices without node); "
                 "start stamps at any hour and minute (also day 27), horizons of 6-30 steps crossing midnight, steps 1/2, 1, 3, 6 h written in s / min / h / days, line and "
                 "transformer failure rates 0-1500 /year with U(1,4) h repairs; two of {sequential, MC debug, MC pool} x {save, no save} per configuration. "
+                "horizon: a trivial fed system without failures, steps of 1 s .. 2 h written in min / h / days / weeks (mostly not binary fractions of the unit) x 1..60 steps, sequential and MC debug: runs to completion with exactly that many increments. "
                 "non-trivial = distinct (controller, ICT, microgrid, EV park, unit, entry points that logged something)")
-    run_cases(res, gen(rng, n), handler)
+    run_cases(res, gen(rng, n, nh), handler)
 
 
 def search(res):
     rng = random.Random(res.seed * 47 + 24)
     found = []
-    for case in gen(rng, 40):
+    for case in gen(rng, 40, 400):
         h = handler(case)
         for key, what in h["viols"]:
             found.append({"key": key, "what": what, "case": case})
